@@ -346,6 +346,35 @@ def r4_r5(ctx, prog, fit, wrapper):
                   "the index must advance by one exactly where a stderr is "
                   "stored (found %d increments in that block, %d overall)" %
                   (len(incs), len(all_incs)), node=store)
+        # every iteration of the component loop must walk all parameters:
+        # no path from the component-loop head back to itself (or out of the
+        # loop) that bypasses the parameter loop
+        from ..cfg import CFG, EXIT
+        g = CFG(fi.node)
+        ch = g.nodes_for_stmt(comp_loop)
+        inner = [l for l in use_loops if l is not comp_loop]
+        ih = [n for l in inner for n in g.nodes_for_stmt(l)]
+        if ch and ih:
+            p = g.path_avoiding(ch[0], ch[0], ih, first_label="T")
+            ctx.check("C04-R4", fi, "every component iteration enumerates "
+                      "all parameters", p is None,
+                      "a path through the component loop skips the parameter "
+                      "loop (e.g. an early `continue`): the skipped "
+                      "component's free parameters keep stale errors and "
+                      "every later component is assigned another "
+                      "component's uncertainties", node=comp_loop,
+                      path=g.describe(p) if p else None)
+            # inside the parameter loop: whenever the vary guard holds the
+            # store is executed (no continue/break between guard and store)
+            sn = g.nodes_for_stmt(store)
+            gd = pm[store]
+            gn = g.nodes_for_stmt(gd) if isinstance(gd, ast.If) else []
+            if sn and gn:
+                q = g.path_avoiding(gn[0], ih[0], sn, first_label="T")
+                ctx.check("C04-R4", fi, "vary guard always reaches the "
+                          "store", q is None, "a path from the `.vary` "
+                          "guard skips the stderr store", node=gd,
+                          path=g.describe(q) if q else None)
         guard = pm[store]
         ctx.check("C04-R4", fi, "stderr store guarded by .vary",
                   isinstance(guard, ast.If) and vary_param(guard.test)
